@@ -50,6 +50,7 @@ def generate(rng, tier, index):
     case = {"prop": ID, "cfg": cfg, "style": style, "family": style}
     try:
         mix = random_mix(rng)
+        mix["swap"] = 1             # two files exchange names through a temporary name
         if flav in CI_FLAVOURS:
             mix["recase"] = 2           # case-only renames: a case-insensitive side must still carry them over
         gen_history(rng, ex, nops, style=style, mix=mix)
